@@ -42,6 +42,9 @@ type c02Case struct {
 	Batched bool `json:"batched_connection,omitempty"`
 	// Debug: log.level = debug (debug lines are built from the entry's data, and must not change it)
 	Debug bool `json:"log_level_debug,omitempty"`
+	// RefuseNth n>0: the target answers the n-th element command of the element-wise route
+	// (RPUSH/SADD/HSET/ZADD) with "-OOM command not allowed when used memory > 'maxmemory'."
+	RefuseNth int `json:"target_refuses_nth_element_command,omitempty"`
 }
 
 // c02BatchConn models the argument retention of the cluster connection on top of a real redigo
@@ -239,6 +242,20 @@ func c02Restore(c c02Case, entries []*rdb.BinEntry, lg *rdbgen.Logical, body []b
 	if c.Reject {
 		opt.RejectTypes = map[byte]bool{entries[0].Type: true}
 	}
+	refusedHit, elemCmds := false, 0
+	if c.RefuseNth > 0 {
+		opt.ReplyHook = func(cmd mredis.Cmd) []byte {
+			switch cmd.Name() {
+			case "rpush", "sadd", "hset", "zadd":
+				elemCmds++
+				if elemCmds == c.RefuseNth {
+					refusedHit = true
+					return []byte("-OOM command not allowed when used memory > 'maxmemory'.\r\n")
+				}
+			}
+			return nil
+		}
+	}
 	srv := mredis.New(opt)
 	switch c.Pre {
 	case 1:
@@ -327,6 +344,13 @@ func c02Restore(c c02Case, entries []*rdb.BinEntry, lg *rdbgen.Logical, body []b
 	}
 	if goPanic != nil {
 		return bad("go-panic", fmt.Sprintf("restore panics: %v", goPanic))
+	}
+	if refusedHit {
+		// elements are missing on the target: the restore must say so (it aborts, or returns an error)
+		if returned && rerr == nil {
+			return bad("element-refusal-ignored", fmt.Sprintf("the target refused element command %d of %d (-OOM) and the restore reports success", c.RefuseNth, elemCmds))
+		}
+		return route + ":refused"
 	}
 	if !returned {
 		return bad("abort", "restore aborts the tool: "+abortMsg)
@@ -540,6 +564,15 @@ func TestVerif_C02(t *testing.T) {
 					// and, on both kinds of connection, with log.level = debug
 					run(c02Case{Val: v, Exp: 1, Threshold: thr, KeyExists: "rewrite", Replace: true, Reject: rej, Pre: pre, Batched: pre == 0, Debug: true})
 				}
+			}
+		}
+	}
+	// G. a target that refuses one element command of the element-wise route (out of memory):
+	// the first, second, third and fourth one
+	for v := range c02Values {
+		for nth := 1; nth <= 4; nth++ {
+			for _, batched := range bools {
+				run(c02Case{Val: v, Exp: 1, Threshold: 0, KeyExists: "rewrite", Replace: true, RefuseNth: nth, Batched: batched})
 			}
 		}
 	}
